@@ -237,8 +237,50 @@ def dup_case(ctx, k):
             if r0.rc != 0:
                 return
         shape = rng.choice(["two-record-outputs", "two-record-outputs", "record-and-text", "pair-same-file", "pair-shared-first-file",
-                            "stdout-and-dash", "expanded-name-shares-one-file"])
+                            "stdout-and-dash", "expanded-name-shares-one-file", "two-spellings", "two-spellings", "text-equals-expanded-name"])
         ctx.count("duplicate_path_shape:" + shape)
+        if shape == "two-spellings":
+            # one file under two spellings
+            other = rng.choice(["./dup.fastq", "sub/../dup.fastq", ".//dup.fastq", os.path.join(d, "dup.fastq")])
+            if rng.random() < 0.5:
+                argv = ad["argv"] + ["-m", "12", "--too-short-output", other, "-o", "dup.fastq", "--json", "rep.json"] + inputs
+                want_n = len(recs)
+            else:
+                argv = ad["argv"] + ["-o", "dup.fastq", "-p", other, "--json", "rep.json"] + inputs + inputs
+                want_n = 2 * len(recs)
+            run = climon.run(d, argv, tag="dup", trace=False)
+            ctx.count("duplicate_path_runs")
+            ctx.case(("dup", str(argv), shape))
+            case = climon.case_record(argv, d, inputs)
+            case["dup_k"] = k
+            if run.rc != 0:
+                ctx.count("duplicate_path_refused")
+                return
+            fo = run.records("dup.fastq")
+            got = len(fo[1]) if fo and fo[0] != "error" else None
+            if got != want_n:
+                ctx.violation("duplicate-path-clobbered", f"one file given under two spellings ({other} and dup.fastq) was accepted; exit 0, but the file holds {got} parseable "
+                              f"records of the {want_n} written; argv={argv}", case, facts=dict(shape=shape))
+            return
+        if shape == "text-equals-expanded-name":
+            nm = ad["name"]
+            argv = ad["argv"] + ["-o", "t.{name}.fq", rng.choice(["--info-file", "--rest-file"]), f"t.{nm}.fq", "--json", "rep.json"] + (["-j", "2"] if rng.random() < 0.3 else []) + inputs
+            run = climon.run(d, argv, tag="dup", trace=False)
+            ctx.count("duplicate_path_runs")
+            ctx.case(("dup", str(argv), shape))
+            case = climon.case_record(argv, d, inputs)
+            case["dup_k"] = k
+            if run.rc != 0:
+                ctx.count("duplicate_path_refused")
+                return
+            fo = run.records(f"t.{nm}.fq")
+            want_n = sum(1 for key, f in [(None, None)] if False)   # computed below
+            trimmed = run.json_report()["read_counts"]["read1_with_adapter"]
+            got = len(fo[1]) if fo and fo[0] != "error" else None
+            if got != trimmed:
+                ctx.violation("duplicate-path-clobbered", f"a text output and the demultiplexed file of adapter {nm} are one path; exit 0, {trimmed} reads belong in that file, it holds "
+                              f"{got} parseable records; argv={argv}", case, facts=dict(shape=shape))
+            return
         if shape in ("stdout-and-dash", "expanded-name-shares-one-file"):
             # collisions that only exist after defaults / {name} templates are resolved
             if shape == "stdout-and-dash":
